@@ -148,9 +148,15 @@ def run(ctx):
         c_int = np.array(c0, dtype=np.int64).reshape(c_arr.shape)
         got_pi = call(lambda: dtw_barycenter.dba(data, c_int.copy() if k % 2 else c_int.tolist(), mask=npmask, use_c=False, **kw))
         got_ci = call(lambda: dtw_barycenter.dba_loop(data, c=c_int.copy(), max_it=1, thr=None, mask=npmask, use_c=True, **kw))
+        # the same mask as an integer array (e.g. `(labels == k) * 1`) or as uint8
+        imask = np.array(mask, dtype=(np.int64, np.int32, np.uint8)[k % 3])
+        got_pm = call(lambda: dtw_barycenter.dba_loop(data, c=c_arr.copy(), max_it=1, thr=None, mask=imask, use_c=False, **kw))
+        got_cm = call(lambda: dtw_barycenter.dba_loop(data, c=c_arr.copy(), max_it=1, thr=None, mask=imask, use_c=True, **kw))
         for name, got, exact in (("dba python", got_py, True), ("dba(use_c) C paths", got_pc, unique),
                                  ("dtw_dba (C)", got_c, unique), ("dba python, integer-typed average", got_pi, True),
-                                 ("dtw_dba (C), integer-typed average", got_ci, unique)):
+                                 ("dtw_dba (C), integer-typed average", got_ci, unique),
+                                 ("dba_loop python, %s mask" % imask.dtype, got_pm, True),
+                                 ("dba_loop C, %s mask" % imask.dtype, got_cm, unique)):
             if isinstance(got, str):
                 res.violations.append({"clause": "DBA step raised", "route": name, "series": series, "c": c0,
                                        "mask": mask, "kwargs": repr(kw), "got": got})
